@@ -40,6 +40,17 @@ func TestLimits(t *testing.T) {
 					yield(limProg(cat([]byte{0x51}, rep(0x61, k)), []byte{0x51}, fl))                      // the count is per script
 					yield(limProg(cat([]byte{0x51}, rep(0x61, k/2)), cat(rep(0x61, k-k/2)), fl))
 				}
+				// the P2SH redeem script is a script of its own: fresh operation count, same limits
+				if fl&interp.FlagAfterGenesis == 0 {
+					for _, k := range []int{199, 200, 201, 202, 499, 500, 501, 502} {
+						redeem := cat(rep(0x61, k), []byte{0x51})
+						p := sgen.WrapP2SH(sgen.Program{Unlock: cat(rep(0x61, 0)), Lock: redeem, Flags: fl | interp.FlagP2SH}, false)
+						yield(limProg(p.Unlock, p.Lock, p.Flags))
+						// operations spent in the locking script do not count against the redeem script
+						p2 := sgen.WrapP2SH(sgen.Program{Unlock: []byte{0x51, 0x75}, Lock: redeem, Flags: fl | interp.FlagP2SH}, false)
+						yield(limProg(p2.Unlock, p2.Lock, p2.Flags))
+					}
+				}
 				// stack depth: k items from the unlocking script, one more from the locking script
 				for _, k := range []int{998, 999, 1000, 1001} {
 					yield(limProg(rep(0x51, k), []byte{0x51}, fl))
